@@ -49,6 +49,9 @@ pub struct Features {
     pub shift_focus: bool,
     /// Vicinity clustering (`plan.clustering`): jobs close to each other are served from one stop (parking + commute).
     pub clustering: bool,
+    /// Restriction, not a feature: multi-task jobs are one pickup + one delivery only (the only multi-task shape whose
+    /// task permutations are not sampled at random by the solver).
+    pub pd_only: bool,
 }
 
 impl Features {
@@ -83,6 +86,7 @@ impl Features {
             clustering: 0.5
         );
         f.shared_reload = f.shared_reload && f.reloads;
+        f.pd_only = allowed.pd_only;
         f.unreachable_random = f.unreachable && p.chance(0.35);
         // swarm focus profiles: force a feature combination whose interesting states are rare under independent draws
         if allowed.reloads && allowed.shared_reload && p.chance(0.07) {
@@ -120,6 +124,7 @@ impl Features {
             reload_focus: false,
             shift_focus: false,
             clustering: false,
+            pd_only: false,
         }
     }
 }
@@ -253,7 +258,7 @@ pub fn generate(seed: u64, limits: &GenLimits, allowed: &Features) -> GenProblem
                 if cx.f.multi_job { 6 } else { 0 },
                 if cx.f.replacement { 3 } else { 0 },
                 if cx.f.service { 3 } else { 0 },
-                if cx.f.multi_job { 2 } else { 0 },
+                if cx.f.multi_job && !cx.f.pd_only { 2 } else { 0 },
             ];
             cx.p.weighted(&w)
         };
@@ -272,8 +277,8 @@ pub fn generate(seed: u64, limits: &GenLimits, allowed: &Features) -> GenProblem
             }
             2 => {
                 // pickup(s) and delivery(ies) with matching total demand
-                let np = if cx.p.chance(0.25) { 2 } else { 1 };
-                let nd = if np == 1 && cx.p.chance(0.25) { 2 } else { 1 };
+                let np = if cx.p.chance(0.25) && !cx.f.pd_only { 2 } else { 1 };
+                let nd = if np == 1 && cx.p.chance(0.25) && !cx.f.pd_only { 2 } else { 1 };
                 let total = cx.demand();
                 let split = |cx: &mut Ctx, n: usize| -> Vec<Vec<i64>> {
                     if n == 1 {
